@@ -566,6 +566,20 @@ pub fn generate(prop: &str, thorough: bool, seed: u64, part: (usize, usize), em:
             if prop == "C04" { emit_strict(em, &run, &mut seen); }
         }
     }
+    // a user principal name together with a domain, and credential strings of more than 255 UTF-16 units (cb fields above
+    // 510): sent in full, each count matching its string, in the Client Info PDU as in the NTLM and CredSSP structures
+    if part.0 == 0 {
+        let long = |c: &str, n: usize| -> String { c.repeat(n) };
+        for (k, (dom, user, pw)) in [("CORP".to_string(), "user@corp.example".to_string(), "pw".to_string()), ("".to_string(), "user@corp.example".to_string(), "".to_string()),
+                                     ("D".to_string(), "u".to_string(), long("p", 256)), ("D".to_string(), long("u", 292), "p".to_string()), (long("d", 256), "user".to_string(), long("é", 300))].iter().enumerate() {
+            for nla in &[false, true] {
+                let c = Cfg { w: 800, h: 600, lay: 0x409, name: "rdp-rs".into(), dom: dom.clone(), user: user.clone(), pw: pw.clone(), hash: false, ra: false, blank: false, auto: k % 2 == 0, nla: *nla, check: false };
+                let s = SrvCfg { sel: 0, id: 1, uid: 1004, version: 0x80004, license_new: false, share: 0x103ea, caps: default_caps(), source: b"RDP\0".to_vec(), chal_flags: 0x62898235, inputs: vec![], script: vec![], reactivate: None, reuse: 0, jrefuse: 0, ber: 0 };
+                let run = emit(em, &c, &s);
+                if prop == "C04" { emit_strict(em, &run, &mut seen); }
+            }
+        }
+    }
     if prop == "C17" { return; }
     // a Client Info PDU whose size sits on the PER length boundary (126 / 128 / 130 bytes of user data: one-byte and
     // two-byte length forms): a server that announces a pre-5 version gets no extended info, credentials of 47..49 units
